@@ -41,8 +41,17 @@ ASSUMPTIONS = [
 ALLOWED = {"EOFError", "ValueError", "UnicodeError", "UnicodeDecodeError", "UnicodeEncodeError", "UnicodeTranslateError"}
 ROOTS = [("Message", "fromStr"), ("_EDNSMessage", "fromStr")]
 HARMLESS = {"BytesIO", "len", "range", "set", "int", "getattr", "setattr", "log.msg", "struct.calcsize", "isinstance", "bool", "list", "tuple", "bytes",
-            "min", "max", "abs", "frozenset", "dict", "str", "repr", "divmod", "bytearray"}   # bytes(n)/bytearray(n)/int(x) reject bad operands with ValueError (allowed)
-HARMLESS_METHODS = {"append", "add", "tell", "seek", "read", "get", "getvalue", "items", "values", "keys", "lower", "upper", "extend", "to_bytes", "from_bytes"}
+            "min", "max", "abs", "frozenset", "dict", "str", "repr", "divmod", "bytearray", "sorted", "reversed", "enumerate", "zip", "sum", "any", "all",
+            "hasattr", "id", "type", "callable", "iter", "memoryview", "round", "hash", "print", "log.err", "warnings.warn", "object", "super"}
+# bytes(n)/bytearray(n)/int(x)/round reject bad operands with ValueError (allowed); sum/min/max over message-derived *numbers* do not raise
+HARMLESS_METHODS = {"append", "add", "tell", "seek", "read", "get", "getvalue", "items", "values", "keys", "lower", "upper", "extend", "to_bytes", "from_bytes",
+                    # str / bytes (index()/decode() raise ValueError subclasses only, which are allowed)
+                    "join", "split", "rsplit", "splitlines", "strip", "lstrip", "rstrip", "startswith", "endswith", "find", "rfind", "index", "count", "replace",
+                    "title", "capitalize", "hex", "isdigit", "isalpha", "partition", "rpartition", "ljust", "rjust", "zfill", "format", "encode",
+                    # list / set / dict operations that cannot fail on the receiver kinds used here
+                    "insert", "copy", "sort", "reverse", "update", "setdefault", "discard", "clear", "union", "issubset", "write"}
+# list.pop()/dict.pop(k)/set.remove()/list.remove() raise IndexError/KeyError on hostile data: deliberately NOT harmless (see METHOD_RAISERS)
+METHOD_RAISERS = {"pop": "IndexError", "remove": "KeyError", "popitem": "KeyError", "popleft": "IndexError"}
 RAISERS = {  # callee -> exception it raises on hostile operands
     "socket.inet_ntoa": "OSError", "socket.inet_ntop": "OSError", "socket.inet_aton": "OSError", "socket.inet_pton": "OSError",
     "struct.pack": "struct.error", "pack": "struct.error", "struct.unpack_from": "struct.error", "chr": "ValueError", "nativeString": "UnicodeError",
@@ -184,6 +193,8 @@ class Family:
                 return [(x, fn.attr) for x in sorted(cands)]
             if fn.attr in HARMLESS_METHODS:
                 return "harmless"
+            if fn.attr in METHOD_RAISERS:
+                return "raiser"
         return None
 
     def build(self):
@@ -465,6 +476,154 @@ def check_computed_format(ctx, fam, q, g, sz: "Sizes", call, what: str) -> None:
                   f"struct.unpack needs `{need}` bytes for this run-time format but is given `{have}` bytes: struct.error escapes when they differ")
 
 
+_NUMERIC_CODES = set("bBhHiIlLqQnNefd?")
+
+
+def _conversions(fmt: str) -> Optional[List[str]]:
+    """Conversion type characters of a %-format, in operand order; None for mapping keys / * widths (not modelled)."""
+    out = []
+    i = 0
+    while i < len(fmt):
+        if fmt[i] != "%":
+            i += 1
+            continue
+        i += 1
+        if i < len(fmt) and fmt[i] == "%":
+            i += 1
+            continue
+        if i < len(fmt) and fmt[i] == "(":
+            return None
+        while i < len(fmt) and fmt[i] in "#0- +":
+            i += 1
+        while i < len(fmt) and (fmt[i].isdigit() or fmt[i] == "."):
+            i += 1
+        if i < len(fmt) and fmt[i] == "*":
+            return None
+        while i < len(fmt) and fmt[i] in "hlL":
+            i += 1
+        if i >= len(fmt):
+            return None
+        out.append(fmt[i])
+        i += 1
+    return out
+
+
+def value_kind(e, fam: "Family", key, f, sz: "Sizes", depth: int = 0) -> str:
+    """"num" | "text" | "object" | "none" | "unknown": what a %-format operand can be, decided syntactically."""
+    if depth > 6:
+        return "unknown"
+
+    def join(kinds):
+        ks = set(kinds)
+        if not ks:
+            return "unknown"
+        if len(ks) == 1:
+            return next(iter(ks))
+        bad = ks & {"text", "object", "none"}
+        return next(iter(sorted(bad))) if bad and "unknown" not in ks and "num" not in ks else ("mixed:" + next(iter(sorted(bad))) if bad else "unknown")
+
+    if isinstance(e, ast.Constant):
+        if isinstance(e.value, bool) or isinstance(e.value, (int, float)):
+            return "num"
+        if isinstance(e.value, (str, bytes)):
+            return "text"
+        return "none" if e.value is None else "unknown"
+    if isinstance(e, ast.JoinedStr):
+        return "text"
+    if isinstance(e, ast.IfExp):
+        return join([value_kind(e.body, fam, key, f, sz, depth + 1), value_kind(e.orelse, fam, key, f, sz, depth + 1)])
+    if isinstance(e, ast.Call):
+        nm, at = call_name(e), call_attr(e)
+        if nm in ("len", "int", "ord", "float", "abs", "sum", "round", "struct.calcsize", "calcsize", "hash", "id") or at in ("tell", "count", "find", "index"):
+            return "num"
+        if nm in ("str", "repr", "bytes", "nativeString", "_nicebytes", "_nicebyteslist", "domainString", "chr", "_ord2bytes") or \
+                at in ("decode", "encode", "join", "lower", "upper", "strip", "format", "hex", "title", "read", "getvalue"):
+            return "text"
+        if nm == "readPrecisely":
+            return "text"
+        if isinstance(e.func, ast.Name) and e.func.id in fam.classes:
+            return "object"
+        return "unknown"
+    if isinstance(e, ast.BinOp):
+        a, b = value_kind(e.left, fam, key, f, sz, depth + 1), value_kind(e.right, fam, key, f, sz, depth + 1)
+        if isinstance(e.op, ast.Mod) and a == "text":
+            return "text"
+        if a == "num" and b == "num":
+            return "num"
+        if isinstance(e.op, (ast.Add, ast.Mult)) and "text" in (a, b):
+            return "text"
+        if isinstance(e.op, (ast.Sub, ast.FloorDiv, ast.Div, ast.LShift, ast.RShift, ast.BitAnd, ast.BitOr, ast.Pow)) and "unknown" in (a, b) and not ({a, b} & {"text", "object", "none"}):
+            return "num"      # these operators only produce numbers (or raise earlier)
+        return "unknown"
+    if isinstance(e, ast.Subscript) and isinstance(e.slice, ast.Constant) and isinstance(e.slice.value, int):
+        v = expand(e.value, sz.defs)
+        if isinstance(v, ast.Call) and call_name(v) in ("struct.unpack", "unpack"):
+            fmt = sz.ceval(v.args[0])
+            if isinstance(fmt, str):
+                from sa.props._lib_g import struct_codes
+                codes = struct_codes(fmt)
+                i = e.slice.value
+                if -len(codes) <= i < len(codes):
+                    return "num" if codes[i][-1] in _NUMERIC_CODES else "text"
+        return "unknown"
+    if isinstance(e, ast.Name):
+        params = [a.arg for a in f.args.args]
+        kinds = []
+        if e.id in params:
+            if key[1] == "decode" and len(params) > 2 and e.id == params[2]:
+                kinds.append("num")      # rdlength (rule escape/length-supplied)
+            else:
+                kinds.append("unknown")
+        for st in statements(f):
+            if isinstance(st, ast.Assign):
+                for t in st.targets:
+                    if isinstance(t, ast.Name) and t.id == e.id:
+                        kinds.append(value_kind(st.value, fam, key, f, sz, depth + 1))
+                    elif isinstance(t, (ast.Tuple, ast.List)):
+                        for i, el in enumerate(t.elts):
+                            if isinstance(el, ast.Name) and el.id == e.id:
+                                v = expand(st.value, sz.defs)
+                                if isinstance(v, ast.Call) and call_name(v) in ("struct.unpack", "unpack") and isinstance(sz.ceval(v.args[0]), str):
+                                    from sa.props._lib_g import struct_codes
+                                    codes = struct_codes(sz.ceval(v.args[0]))
+                                    kinds.append("num" if i < len(codes) and codes[i][-1] in _NUMERIC_CODES else "text")
+                                elif isinstance(st.value, (ast.Tuple, ast.List)) and len(st.value.elts) == len(t.elts):
+                                    kinds.append(value_kind(st.value.elts[i], fam, key, f, sz, depth + 1))
+                                else:
+                                    kinds.append("unknown")
+            elif isinstance(st, ast.AugAssign) and isinstance(st.target, ast.Name) and st.target.id == e.id:
+                kinds.append(value_kind(st.value, fam, key, f, sz, depth + 1) if not isinstance(st.op, (ast.Sub, ast.FloorDiv, ast.RShift, ast.LShift)) else "num")
+            elif isinstance(st, (ast.For,)) and any(isinstance(x, ast.Name) and x.id == e.id for x in ast.walk(st.target)):
+                kinds.append("num" if isinstance(st.iter, ast.Call) and call_name(st.iter) == "range" else "unknown")
+        return join(kinds)
+    if is_self_attr(e):
+        kinds = []
+        owner = fam.owner(*key) if key[0] else None
+        related = [c for n, c in fam.classes.items() if owner and (n == key[0] or n == owner or _derives_from(fam, c, owner) or _derives_from(fam, fam.classes.get(key[0]), n))]
+        for c in related:
+            ca = class_assigns(c).get(e.attr)
+            if isinstance(ca, ast.Constant):
+                kinds.append("text" if isinstance(ca.value, (str, bytes)) else ("num" if isinstance(ca.value, (int, float)) and not isinstance(ca.value, bool) else ("none" if ca.value is None else "unknown")))
+            for st in ast.walk(c):
+                if isinstance(st, ast.Assign) and any(is_self_attr(t, e.attr) for t in st.targets):
+                    kinds.append(value_kind(st.value, fam, (c.name, "?"), f, sz, depth + 1) if isinstance(st.value, (ast.Constant, ast.Call, ast.JoinedStr)) else "unknown")
+        kinds = [k for k in kinds if k != "none"] or kinds     # `x = None` placeholders at class level do not count when real values exist
+        return join(kinds)
+    return "unknown"
+
+
+def _derives_from(fam: "Family", cls, base: str, seen=()) -> bool:
+    if cls is None:
+        return False
+    for b in base_names(cls):
+        if b == base:
+            return True
+        c = fam.classes.get(b)
+        if c is not None and b not in seen and _derives_from(fam, c, base, seen + (b,)):
+            return True
+    return False
+
+
 def _percent_count(fmt: str) -> Optional[int]:
     n = 0
     i = 0
@@ -555,6 +714,14 @@ def check_escape(ctx, fam: Family):
                     exc = RAISERS[call_name(n)]
                     ok = _exc_allowed(mod, exc) or _handled(g, g.ids_of(n), exc.split(".")[-1] if exc != "struct.error" else "struct.error")
                     ctx.check(ok, "escape/raising-callee", ctx.construct(q, n), f"{call_name(n)}() raises {exc} on hostile operands and nothing here converts it")
+                if isinstance(n, ast.Call) and isinstance(n.func, ast.Attribute) and n.func.attr in METHOD_RAISERS and not is_self_attr(n.func) \
+                        and not (n.func.attr == "pop" and len(n.args) == 2):
+                    exc = METHOD_RAISERS[n.func.attr]
+                    base = src(n.func.value)
+                    guarded = any(src(g.node(t).ast) == base and lab == "T" for i in g.ids_of(n) for t, lab in g.edge_guards(i))
+                    ok = guarded or _handled(g, g.ids_of(n), exc) or _handled(g, g.ids_of(n), "KeyError" if exc == "IndexError" else "IndexError")
+                    ctx.check(ok, "escape/raising-callee", ctx.construct(q, n), f"{src(n.func)}() raises {exc} (or KeyError/IndexError) when the container built from the message is empty "
+                              "or lacks the element, and nothing here guards or converts it")
                 # ---- subscripts
                 if isinstance(n, ast.Subscript) and isinstance(n.ctx, ast.Load) and not isinstance(n.slice, ast.Slice):
                     cons = ctx.construct(q, n)
@@ -604,6 +771,16 @@ def check_escape(ctx, fam: Family):
                         want = _percent_count(n.left.value if isinstance(n.left.value, str) else n.left.value.decode("latin-1"))
                         have = len(n.right.elts) if isinstance(n.right, ast.Tuple) else 1
                         ctx.check(want is not None and want == have, "escape/format-operands", cons, f"the format string has {want} conversions for {have} operands: TypeError escapes")
+                        convs = _conversions(n.left.value if isinstance(n.left.value, str) else n.left.value.decode("latin-1"))
+                        ops = list(n.right.elts) if isinstance(n.right, ast.Tuple) else [n.right]
+                        if convs is not None and len(convs) == len(ops) and not _handled(g, g.ids_of(n), "TypeError"):
+                            for pos, (cv, op_) in enumerate(zip(convs, ops), 1):
+                                if cv not in "diouxXeEfFgG":
+                                    continue
+                                kind = value_kind(op_, fam, key, f, sz)
+                                ctx.check(kind not in ("text", "object", "none"), "escape/format-types", cons + f" | operand {pos}",
+                                          f"conversion %{cv} (operand {pos}) needs a number but `{src(op_)}` is {'a string' if kind == 'text' else ('None' if kind == 'none' else 'an object')}: "
+                                          "evaluating this message raises TypeError, which escapes the decoder (the operands are formatted eagerly, also inside log.msg(...))")
                         continue
                     rc = sz.ceval(n.right)
                     okc = isinstance(rc, (int, float)) and not isinstance(rc, bool) and (rc != 0 if isinstance(n.op, (ast.Div, ast.FloorDiv, ast.Mod)) else 0 <= rc <= 64)
@@ -733,8 +910,9 @@ def check_termination(ctx, fam: Family):
             found = True
             break
     ctx.check(not found, "termination/no-recursion", Q + " | <decode family call graph>",
-              "the decoders call each other recursively (" + " -> ".join(fam.qual(k).replace(Q + ".", "") for k in cyc[-6:]) + "): the depth is chosen by the message, "
-              "so RecursionError escapes or decoding does not terminate")
+              "the decoders call each other recursively (" + " -> ".join(fam.qual(k).replace(Q + ".", "") for k in cyc[-6:]) + "): the recursion depth is chosen by the message "
+              "(one level per compression pointer / nested element), so about 1000 chained levels raise RecursionError - neither EOFError nor ValueError - "
+              "or decoding does not terminate")
 
     # (2) loops
     n_loops = 0
@@ -999,6 +1177,13 @@ MUTANTS = [
                   "                hops += 1\n                if hops > 16:\n                    raise ValueError(\"Compression loop in encoded name\")\n"),
                  (DNS, "            label = readPrecisely(strio, l)\n            if self.name == b\"\":\n", "            label = readPrecisely(strio, l)\n            hops = 0\n            if self.name == b\"\":\n")],
            expect_rule="termination/pointer-visited-test"),
+    Mutant("txt-log-operands-reordered", DNS, "                % (soFar, self.fancybasename, length)\n", "                % (self.fancybasename, soFar, length)\n", expect_rule="escape/format-types"),
+    Mutant("txt-log-counts-strings-list", DNS, "                % (soFar, self.fancybasename, length)\n", "                % (self.data, self.fancybasename, length)\n".replace("self.data", "b\"\".join(self.data)"),
+           expect_rule="escape/format-types"),
+    Mutant("name-labels-decoded-recursively", DNS, "                strio.seek(new_off)\n                continue\n            label = readPrecisely(strio, l)\n",
+           "                strio.seek(new_off)\n                rest = Name()\n                rest.decode(strio)\n                self.name = b\".\".join([x for x in (self.name, rest.name) if x])\n                strio.seek(off)\n                return\n            label = readPrecisely(strio, l)\n",
+           expect_rule="termination/no-recursion"),
+    Mutant("txt-strings-popped-unguarded", DNS, "        if soFar != length:\n            log.msg(\n", "        if soFar != length:\n            self.data.pop()\n            log.msg(\n", expect_rule="escape/raising-callee"),
     Mutant("visited-test-dropped", DNS, "                if new_off in visited:\n                    raise ValueError(\"Compression loop in encoded name\")\n                visited.add(new_off)\n",
            "                visited.add(new_off)\n", expect_rule="termination/pointer-visited-test"),
     Mutant("visited-never-recorded", DNS, "                visited.add(new_off)\n                if off == 0:\n", "                if off == 0:\n", expect_rule="termination/pointer-recorded"),
@@ -1042,6 +1227,11 @@ SILENT = [
            "        if length < 5:\n            raise EOFError\n        fields = struct.unpack(\"!4sB%ds\" % (length - 5), readPrecisely(strio, length))\n        self.address, self.protocol, self.map = fields\n"),
     Silent("wks-single-unpack-struct-error-converted", DNS, "        self.address = readPrecisely(strio, 4)\n        self.protocol = struct.unpack(\"!B\", readPrecisely(strio, 1))[0]\n        self.map = readPrecisely(strio, length - 5)\n",
            "        try:\n            fields = struct.unpack(\"!4sB%ds\" % (length - 5), readPrecisely(strio, length))\n        except struct.error:\n            raise ValueError(\"short WKS record\")\n        self.address, self.protocol, self.map = fields\n"),
+    Silent("txt-log-reworded-consistently", DNS, '                "Decoded %d bytes in %s record, but rdlength is %d"\n                % (soFar, self.fancybasename, length)\n',
+           '                "%s record: decoded %d bytes, but rdlength is %d"\n                % (self.fancybasename, soFar, length)\n'),
+    Silent("name-joined-from-label-list", DNS, "        visited = set()\n        self.name = b\"\"\n        off = 0\n", "        visited = set()\n        labels = []\n        self.name = b\"\"\n        off = 0\n",
+           more=[(DNS, "            label = readPrecisely(strio, l)\n            if self.name == b\"\":\n                self.name = label\n            else:\n                self.name = self.name + b\".\" + label\n",
+                  "            labels.append(readPrecisely(strio, l))\n            self.name = b\".\".join(labels)\n")]),
     Silent("query-calcsize", DNS, "        buff = readPrecisely(strio, 4)\n", "        buff = readPrecisely(strio, struct.calcsize(\"!HH\"))\n"),
     Silent("read-precisely-flipped", DNS, "    if len(buff) < l:\n        raise EOFError\n", "    if l > len(buff):\n        raise EOFError()\n"),
     Silent("loop-error-subclass", DNS, '                    raise ValueError("Compression loop in encoded name")\n', '                    raise UnicodeError("Compression loop in encoded name")\n'),
